@@ -574,6 +574,13 @@ rfbCloseClient(rfbClientPtr cl)
 	free(cl->wspath);
 #endif
       }
+#if defined(LIBVNCSERVER_HAVE_LIBPTHREAD) || defined(LIBVNCSERVER_HAVE_WIN32THREADS)
+    /* Indicate to the client's threads that they should not go on. This is done while holding
+       updateMutex and before the signal, so that the server-to-client thread, which re-tests the
+       state under the same mutex before it waits, cannot miss the wake-up. */
+    if(cl->screen->backgroundLoop)
+	cl->state = RFB_SHUTDOWN;
+#endif
     TSIGNAL(cl->updateCond);
     UNLOCK(cl->updateMutex);
 
@@ -582,8 +589,6 @@ rfbCloseClient(rfbClientPtr cl)
     */
 #if defined(LIBVNCSERVER_HAVE_LIBPTHREAD) || defined(LIBVNCSERVER_HAVE_WIN32THREADS)
     if(cl->screen->backgroundLoop) {
-	/* Indicate to client-to-server thread that it should not go on */
-	cl->state = RFB_SHUTDOWN;
 #ifdef LIBVNCSERVER_HAVE_LIBPTHREAD
 	/*
 	  Notify the thread. This simply writes a NULL byte to the notify pipe in order to get past the select()
